@@ -116,7 +116,7 @@ def obs_events(chk):
     batch = obs.Batch('ObsC12')
     reps = 40 if chk.tier == 'quick' else 400
     # every (length, datatype) combination first (lengths on both sides of any size-dependent path), then random ones
-    sizes = [3, 5, 8, 16, 33, 64, 127, 128, 129, 200]
+    sizes = [3, 5, 8, 16, 33, 64, 127, 128, 129, 200, 257, 520, 1030]
     grid = [(N, c, None) for N in sizes for c in (False, True)]
     # strongly predictable records (first reflection coefficient of modulus > 0.99): ramp, slow tone
     grid += [(N, c, kd) for N in (64, 200) for c in (False, True) for kd in (4, 5)]
